@@ -104,6 +104,9 @@ def readers(ctx, idx, rule):
         good = []
         for line, target, val, node, fk in r.maskstores:
             if isinstance(val, Arr) and val.cmp is not None and val.cmp[2] is not None and any(("kw:" + m) in str(val.cmp[2]) for m in miss_params):
+                c2 = val.cmp[2]
+                if isinstance(c2, tuple) and c2 and c2[0] == "or" and not all(any(("kw:" + m) in str(x_) for m in miss_params) for x_ in c2[1:]):
+                    raise AnalysisError("%s: the missing-value mask of %s compares the data with `%s` and with another number: cannot decide whether that number stands for the declared missing value" % (rule, d.cls.name, miss_params[0]))
                 good.append((line, target, val))
         rets = R.returns_with_parameter(d, r, miss_params)
         if not good:
